@@ -96,6 +96,18 @@ func runC07(r *core.Run) {
 			parts = append(parts, s)
 		}
 		sql := "SELECT * FROM t ORDER BY " + strings.Join(parts, ", ")
+		// every sixth case: the select list is a permutation of the columns, made DISTINCT (a no-op: id is among them) and
+		// extended by an analytic function with an ORDER BY of its own - the final ORDER BY must still sort by ITS keys
+		var perm []int
+		if c%6 == 3 && n > 0 {
+			perm = rng.Perm(6)
+			var names2 []string
+			for _, pi := range perm {
+				names2 = append(names2, cols[pi])
+			}
+			fnk := cols[1+rng.Intn(5)]
+			sql = "SELECT DISTINCT " + strings.Join(names2, ", ") + ", " + []string{"RANK", "ROW_NUMBER", "DENSE_RANK"}[rng.Intn(3)] + "() OVER (ORDER BY " + fnk + []string{"", " DESC"}[rng.Intn(2)] + ") AS zz FROM t ORDER BY " + strings.Join(parts, ", ")
+		}
 		m := 0
 		lim := map[string]interface{}{"k": "none", "n": 0}
 		ties := false
@@ -148,12 +160,38 @@ func runC07(r *core.Run) {
 			}
 			continue
 		}
-		rankStrings(t.Rows, res)
-		if compressNumeric(t.Rows, res) {
+		in, idc := t.Rows, 1
+		if perm != nil {
+			// judge in the permuted column order: project the input, drop the analytic column of the result, re-index the keys
+			pos := map[int]int{}
+			for k, pi := range perm {
+				pos[pi+1] = k + 1
+			}
+			in = nil
+			for _, row := range t.Rows {
+				var pr []rcell
+				for _, pi := range perm {
+					pr = append(pr, row[pi])
+				}
+				in = append(in, pr)
+			}
+			for k := range res {
+				res[k] = res[k][:6]
+			}
+			var keys2 []sortKey
+			for _, k := range keys {
+				k.I = pos[k.I]
+				keys2 = append(keys2, k)
+			}
+			keys, idc = keys2, pos[1]
+			sig += ":distinct-analytic"
+		}
+		rankStrings(in, res)
+		if compressNumeric(in, res) {
 			r.Count("events_with_numbers_beyond_tlc_range", 1)
 		}
 		evs = append(evs, relEvent{SQL: sql, Sig: sig, CPU: cpu, Ev: map[string]interface{}{
-			"kind": "sort", "in": cellsJSON(t.Rows), "res": cellsJSON(res), "keys": keys, "m": m, "lim": lim, "ties": ties, "idc": 1}})
+			"kind": "sort", "in": cellsJSON(in), "res": cellsJSON(res), "keys": keys, "m": m, "lim": lim, "ties": ties, "idc": idc}})
 		r.Distinct(sql + fmt.Sprint(n))
 		if c < 3 {
 			r.Sample(map[string]interface{}{"sql": sql, "rows": n, "cpu": cpu, "returned": len(res)})
